@@ -12,7 +12,7 @@ names=$(jq -r 'keys[]' $IDX)
 [ $# -gt 0 ] && names="$1"
 for n in $names; do
   T=/tmp/benigntry_$n
-  rm -rf "$T"; cp -r /repo "$T"; rm -rf "$T/.git/worktrees"
+  rm -rf "$T"; cp -r /repo "$T"; rm -rf "$T/.git/worktrees"; (cd "$T" && git clean -fdXq)
   (cd "$T" && git apply /verif/benign/$n.diff && go build ./...) || { echo "BENIGN $n: does not apply/build"; rm -rf "$T"; continue; }
   checks=$(jq -r --arg n "$n" '.[$n].checks[]' $IDX)
   [ $# -gt 1 ] && checks="${*:2}"
